@@ -345,7 +345,10 @@ def tournament_unreachable_guard(ctx, site):
         for p in div:
             cm = K.calls_of(p, "IndexedRandom::choose_multiple")
             mx = K.calls_of(p, "Iterator::max")
-            ok1 = len(cm) == 1 and len(mx) == 1 and mx[0][3][0] == cm[0] and rules_c07._size_val(cm[0][3][2]) and K.discr_is(p, lambda o: o == mx[0], 0)
+            if not mx:
+                # max() spelled as "first entrant, then fold": the panic sits on next() == None of the same non-empty sample
+                mx = [c for c in K.calls_of(p, "Iterator::next") if len(cm) == 1 and K.strip(c[3][0], calls=()) == cm[0]]
+            ok1 = len(cm) == 1 and len(mx) == 1 and K.strip(mx[0][3][0], calls=()) == cm[0] and rules_c07._size_val(cm[0][3][2]) and K.discr_is(p, lambda o: K.strip(o, calls=()) == mx[0], 0)
             ok2 = K.holds(K.rels(p), rules_c07._pop_size, "Ge", rules_c07._size_val)
             guard_ok = guard_ok and ok1 and ok2
     return nz and guard_ok, "size: NonZero<usize> = %s, panic only under max(sample of self.size from >= self.size) == None: %s" % (nz, guard_ok)
